@@ -17,7 +17,7 @@ def dispatch (st : DState) (line : String) : DState × String :=
     match codecCmd cmd a with
     | some s => (st, s)
     | none =>
-      match (cliCmd cmd a <|> osCmd cmd a) with
+      match (cliCmd cmd a <|> osCmd cmd a <|> (if cmd = "auto" then autoCmd a else none)) with
       | some s => (st, s)
       | none =>
         match (if cmd = "newcfg" then newcfgCmd a else srvCmd st cmd a) with
